@@ -18,6 +18,10 @@ verus! {
 //@ end
 //@ extract blob.rs struct FileStateVec
 //@ end
+//@ extract blob.rs struct FileInfo
+//@ end
+//@ extract blob.rs struct Blob
+//@ end
 //@ extract history.rs struct RuleHistory
 //@ end
 //@ extract history.rs struct History
@@ -205,6 +209,26 @@ impl<SystemType : System> CurrentFileStates<SystemType> {
         requires vstd::std_specs::hash::obeys_key_model::<String>(),
         ensures final(self).inside.file_states@ == old(self).inside.file_states@.insert(target_path, file_state), final(self).path == old(self).path,
 //@ end
+
+//@ extract current.rs impl /CurrentFileStates<SystemType>$/ fn insert_blob
+//@ props C18 C07
+//@ attr #[verifier::loop_isolation(false)]
+//@ rewrite 1 /blob\.get_file_infos\(\)\.into_iter\(\)/ => blob.get_file_infos()
+//@ spec
+        requires vstd::std_specs::hash::obeys_key_model::<String>(),
+        ensures
+            // the table takes over every (path, state) of the blob handed back, in order, and nothing else changes           //# O-H-insert-blob [C18,C07]
+            final(self).inside.file_states@ == insert_all(old(self).inside.file_states@, blob.file_infos@, blob.file_infos@.len() as int), final(self).path == old(self).path,
+//@ loop 1 binder it
+//@ loop 1 invariant
+            invariant self.inside.file_states@ == insert_all(old(self).inside.file_states@, blob.file_infos@, it.index@), self.path == old(self).path,
+//@ end
+}
+// the table after the first k entries of a blob went back into it
+spec fn insert_all(t: Map<String, FileState>, infos: Seq<FileInfo>, k: int) -> Map<String, FileState> decreases k { if k <= 0 { t } else { insert_all(t, infos, k - 1).insert(infos[k - 1].path, infos[k - 1].file_state) } }
+impl Blob {
+    // ASSUMED (R8): the derived Clone of Vec<FileInfo> copies
+    #[verifier::external_body] fn get_file_infos(self : &Self) -> (r: Vec<FileInfo>) ensures r@ == self.file_infos@ { unimplemented!() }
 }
 // ASSUMED (R8): a String key is determined by its characters; HashMap<String, V>::remove with a &str key
 uninterp spec fn skey(s: Seq<char>) -> String;
